@@ -73,13 +73,38 @@ func loadFindings() []finding {
 	return findingsCache
 }
 
-// excluded returns the generator features switched off by known (unfixed) findings of any property.
+// exclusionGroup: properties whose checks judge the same soundness relation share the exclusions of each other's
+// recorded findings (a flow the taint analysis is known to miss is also missing from the other flow checks).
+var exclusionGroup = map[string][]string{
+	"C01": {"C01", "C02", "C03", "C13"},
+	"C02": {"C01", "C02", "C03", "C13"},
+	"C03": {"C01", "C02", "C03", "C13"},
+	"C13": {"C01", "C02", "C03", "C13"},
+}
+
+var currentProperty string
+
+// excluded returns the generator features switched off by the known (unfixed) findings that concern the property
+// being checked (VERIF_ID).
 func excluded() map[string]bool {
+	id := currentProperty
+	if id == "" {
+		id = os.Getenv("VERIF_ID")
+	}
+	group := exclusionGroup[id]
+	if group == nil {
+		group = []string{id}
+	}
 	m := map[string]bool{}
 	for _, f := range loadFindings() {
-		if f.Status == "known" {
-			for _, e := range f.Excludes {
-				m[e] = true
+		if f.Status != "known" {
+			continue
+		}
+		for _, g := range group {
+			if f.Property == g {
+				for _, e := range f.Excludes {
+					m[e] = true
+				}
 			}
 		}
 	}
@@ -89,6 +114,7 @@ func excluded() map[string]bool {
 // replayKnown replays, on shard 0 only, the stored repros of the property: known findings that still fail print a
 // KNOWN-FINDING line; repros of fixed defects and regression cases must pass, otherwise the violation is reported.
 func replayKnown(t *testing.T, id string) {
+	currentProperty = id
 	if env.Shard != 0 {
 		return
 	}
